@@ -55,22 +55,27 @@ structure GenState (α : Type) where
   C : α
   fc : α
   small : Bool
+  /-- `use_shadow_bool` (plain attribute). Numeric queries of the model are the deterministic part:
+      they are tied to the code only while this flag is off. -/
+  shadow : Bool
 
-def generalInit (n C : α) : GenState α := ⟨n, C, zero, false⟩
+def generalInit (n C : α) : GenState α := ⟨n, C, zero, false, false⟩
 def gpp1Init : GenState α := generalInit Gen.gpp1N Gen.gpp1C
 /-- `PathLossFreeSpace(n, fc)`: `_C = _calculate_C_from_fc_and_n(_fc, n)` -/
-def fsInit (n fc : α) : GenState α := ⟨n, Gen.fsCalcC fc n, fc, false⟩
+def fsInit (n fc : α) : GenState α := ⟨n, Gen.fsCalcC fc n, fc, false, false⟩
 
 inductive FsOp (α : Type)
   | setN (v : α)        -- `pl.n = v`
   | setFc (v : α)       -- `pl.fc = v`
   | setSmall (b : Bool) -- `pl.handle_small_distances_bool = b`
+  | setShadow (b : Bool) -- `pl.use_shadow_bool = b`
 
 /-- the PathLossFreeSpace setters (both recompute `_C`) -/
 def fsStep (s : GenState α) : FsOp α → GenState α
   | .setN v => { s with n := v, C := Gen.fsCalcC s.fc v }
   | .setFc v => { s with fc := v, C := Gen.fsCalcC v s.n }
   | .setSmall b => { s with small := b }
+  | .setShadow b => { s with shadow := b }
 
 def fsRun (s : GenState α) (ops : List (FsOp α)) : GenState α := ops.foldl fsStep s
 
@@ -95,16 +100,19 @@ def GenState.whichLinArray (s : GenState α) (pls : List α) : List α := pls.ma
 structure Ps7State (α : Type) where
   fc : α
   small : Bool
+  shadow : Bool
 
-def ps7Init (fc : α) : Ps7State α := ⟨fc, false⟩
+def ps7Init (fc : α) : Ps7State α := ⟨fc, false, false⟩
 
 inductive Ps7Op (α : Type)
   | setFc (v : α)
   | setSmall (b : Bool)
+  | setShadow (b : Bool)
 
 def ps7Step (s : Ps7State α) : Ps7Op α → Ps7State α
   | .setFc v => { s with fc := v }
   | .setSmall b => { s with small := b }
+  | .setShadow b => { s with shadow := b }
 
 def ps7Run (s : Ps7State α) (ops : List (Ps7Op α)) : Ps7State α := ops.foldl ps7Step s
 
@@ -149,8 +157,9 @@ structure OhState (α : Type) where
   hms : α
   area : String
   small : Bool
+  shadow : Bool
 
-def ohInit : OhState α := ⟨Gen.ohDefaultFc, Gen.ohDefaultHbs, Gen.ohDefaultHms, Gen.ohDefaultArea, false⟩
+def ohInit : OhState α := ⟨Gen.ohDefaultFc, Gen.ohDefaultHbs, Gen.ohDefaultHms, Gen.ohDefaultArea, false, false⟩
 
 inductive OhOp (α : Type)
   | setFc (v : α)
@@ -158,6 +167,7 @@ inductive OhOp (α : Type)
   | setHms (v : α)
   | setArea (v : String)
   | setSmall (b : Bool)
+  | setShadow (b : Bool)
 
 /-- guarded setters: a rejected value raises RuntimeError and leaves the state unchanged -/
 def ohStep (s : OhState α) : OhOp α → OhState α × Option PyErr
@@ -166,6 +176,7 @@ def ohStep (s : OhState α) : OhOp α → OhState α × Option PyErr
   | .setHms v => if Gen.ohHmsAccepted v then ({ s with hms := v }, none) else (s, some .RuntimeError)
   | .setArea v => if Gen.ohAreaAccepted v then ({ s with area := v }, none) else (s, some .RuntimeError)
   | .setSmall b => ({ s with small := b }, none)
+  | .setShadow b => ({ s with shadow := b }, none)
 
 def ohRun (s : OhState α) (ops : List (OhOp α)) : OhState α := ops.foldl (fun s o => (ohStep s o).1) s
 
@@ -188,6 +199,38 @@ def OhState.linScalar (s : OhState α) (d : α) : Except PyErr α := toLin (s.db
 
 /-- `which_distance_dB` is not offered: NotImplementedError (a RuntimeError subclass) -/
 def OhState.whichDb (_s : OhState α) (_pl : α) : Except PyErr α := .error .RuntimeError
+
+/-! ## the plot helper (`_plot_deterministic_path_loss_in_dB_impl`) — a public call that is NOT a setter
+
+The helper saves flags, forces some of them while the curve is computed
+(`Gen.plotForcedShadow`, `Gen.plotForcedSmall`: regenerated from the source),
+calls `calc_path_loss_dB(d)` and `ax.plot`, and writes the saved flags back in a
+`finally` block.  `axRaises` = the axes object's `plot` raises (ValueError in
+the harness stub). -/
+
+/-- the two policy flags in force while the curve is computed -/
+def plotFlags (small shadow : Bool) : Bool × Bool :=
+  (match Gen.plotForcedSmall with | some b => b | none => small,
+   match Gen.plotForcedShadow with | some b => b | none => shadow)
+
+/-- outcome of the body: the policy's exception, else the axes' exception, else none -/
+def plotOutcome (r : Except PyErr (List α)) (axRaises : Bool) : Option PyErr :=
+  match r with
+  | .error e => some e
+  | .ok _ => if axRaises then some .ValueError else none
+
+def GenState.plot (s : GenState α) (ds : List α) (axRaises : Bool) : GenState α × Option PyErr :=
+  let during : GenState α := { s with small := (plotFlags s.small s.shadow).1, shadow := (plotFlags s.small s.shadow).2 }
+  ({ during with small := s.small, shadow := s.shadow }, plotOutcome (during.dbArray ds) axRaises)
+
+/-- the indoor helper calls `calc_path_loss_dB(d)` without `num_walls` (LOS) -/
+def Ps7State.plot (s : Ps7State α) (ds : List α) (axRaises : Bool) : Ps7State α × Option PyErr :=
+  let during : Ps7State α := { s with small := (plotFlags s.small s.shadow).1, shadow := (plotFlags s.small s.shadow).2 }
+  ({ during with small := s.small, shadow := s.shadow }, plotOutcome (during.dbArray 0 ds) axRaises)
+
+def OhState.plot (s : OhState α) (ds : List α) (axRaises : Bool) : OhState α × Option PyErr :=
+  let during : OhState α := { s with small := (plotFlags s.small s.shadow).1, shadow := (plotFlags s.small s.shadow).2 }
+  ({ during with small := s.small, shadow := s.shadow }, plotOutcome (during.dbArray ds) axRaises)
 
 /-! ## AntGainBS3GPP25996 -/
 
